@@ -46,7 +46,9 @@ class SimCrash(BaseException):
 
 
 def snapshot(root):
-    """Sorted [[relative name, bytes as latin-1 text]]; directories appear as 'name/' -> ''."""
+    """Sorted [[relative name, bytes as latin-1 text]]; directories appear as 'name/' -> '';
+    a symbolic link appears as itself, '<symlink:target>' (it is an entry of its own: what it
+    points at is listed under the target's name); a hard link is an ordinary entry."""
     out = []
     for base, dirs, files in os.walk(root):
         rel = os.path.relpath(base, root)
@@ -55,6 +57,9 @@ def snapshot(root):
             out.append([rel + d + '/', ''])
         for f in files:
             p = os.path.join(base, f)
+            if os.path.islink(p):
+                out.append([rel + f, '<symlink:' + os.readlink(p) + '>'])
+                continue
             try:
                 with open(p, 'rb') as fh:
                     out.append([rel + f, fh.read().decode('latin-1')])
@@ -265,7 +270,8 @@ def build_context(case, root):
     return Context(d)
 
 
-def populate(root, files):
+def populate(root, files, links=None):
+    """links: [[name, target name (relative to root), 'sym' | 'hard']], made after the files."""
     for name, content in files:
         p = os.path.join(root, name)
         if name.endswith('/'):
@@ -274,6 +280,13 @@ def populate(root, files):
         os.makedirs(os.path.dirname(p), exist_ok=True)
         with open(p, 'wb') as fh:
             fh.write(content.encode('latin-1'))
+    for name, target, kind in links or []:
+        p = os.path.join(root, name)
+        os.makedirs(os.path.dirname(p), exist_ok=True)
+        if kind == 'hard':
+            os.link(os.path.join(root, target), p)
+        else:
+            os.symlink(os.path.relpath(os.path.join(root, target), os.path.dirname(p)), p)
 
 
 def classify(e, stream):
@@ -353,21 +366,22 @@ def observe(case):
     """Full observation of one case (see props/C15.py for the schema)."""
     root = tempfile.mkdtemp(prefix='c15_')
     try:
-        populate(root, case['files'])
+        populate(root, case['files'], case.get('links'))
         before = snapshot(root)
         paths = glob_paths(case, root)
+        targets = resolve_targets(case, root, paths)
         faults = {int(k): m for k, m in case.get('faults', [])}
         ctl, outcome = run_step(case, root, faults)
         final = ctl.events[-1][1] if outcome[0] == 'crashed' else ctl.snap()
         obs = {'before': before, 'paths': paths, 'events': ctl.events, 'outcome': outcome,
-               'final': final, 'hit': ctl.hit, 'nprims': ctl.n}
+               'final': final, 'hit': ctl.hit, 'nprims': ctl.n, 'targets': targets}
     finally:
         shutil.rmtree(root, ignore_errors=True)
-    obs['table'] = plan_table(case, before, paths)
+    obs['table'] = plan_table(case, before, paths, targets)
     return obs
 
 
-def plan_table(case, before, paths):
+def plan_table(case, before, paths, targets):
     """data plans for every content a target can hold when its turn comes"""
     table = {}
     cur = {n: b for n, b in before}
@@ -379,12 +393,13 @@ def plan_table(case, before, paths):
         c = cur[p]
         if c not in table:
             table[c] = reference_plan(case, c)
-        if table[c]['new'] is not None and in_place(case, p):
+        if table[c]['new'] is not None and in_place(targets, p):
             cur[p] = table[c]['new']
     return [[c, pl] for c, pl in table.items()]
 
 
 def target_of(case, p):
+    """the out path of in-file p, as SPELLED by the step arguments"""
     out = case.get('out')
     if out is None:
         return None
@@ -393,6 +408,27 @@ def target_of(case, p):
     return out
 
 
-def in_place(case, p):
-    t = target_of(case, p)
-    return t is None or os.path.normpath(t) == os.path.normpath(p)
+def resolve_targets(case, root, paths):
+    """[[p, file that p's out path DENOTES or None]] - computed on the populated directory before
+    the run.  'Same file' is decided as the operating system does (os.path.samefile: symbolic
+    links, hard links, '..' and '.' spellings all name the in file), any other spelling is
+    canonicalised with realpath (a symlink to another file denotes that file)."""
+    res = []
+    for p in paths:
+        t = target_of(case, p)
+        if t is None:
+            res.append([p, None])
+            continue
+        at, ap = os.path.join(root, t), os.path.join(root, p)
+        if os.path.isfile(at) and os.path.isfile(ap) and os.path.samefile(at, ap):
+            res.append([p, p])
+        else:
+            res.append([p, os.path.relpath(os.path.realpath(at), os.path.realpath(root))])
+    return res
+
+
+def in_place(targets, p):
+    for q, t in targets:
+        if q == p:
+            return t is None or t == p
+    return True
